@@ -379,9 +379,9 @@ func init() {
 		Variant{Name: "intra-proxy streams get the translating wrapper too", Property: "C12", File: "interceptor/translation_interceptor.go",
 			Old: "\tif common.IsIntraProxy(ss.Context()) {\n\t\terr := handler(srv, ss)\n", New: "\tif common.IsIntraProxy(ss.Context()) {\n\t\terr := handler(srv, newStreamTranslator(ss, i.logger, i.translators))\n", Expect: "O12.13"},
 		Variant{Name: "receiver used for an ack without a test of its stream", Property: "C08", File: "proxy/intra_proxy_router.go",
-			Old: "\t\tif r, ok2 := ps.receivers[key]; ok2 && r != nil && r.streamClient != nil {\n", New: "\t\tif r, ok2 := ps.receivers[key]; ok2 && r != nil {\n", Expect: "O8.19"},
+			Old: "\t\tif r, ok2 := ps.receivers[key]; ok2 && r != nil && r.streamClient != nil {\n\t\t\tif err := r.sendAck(req); err != nil {\n", New: "\t\tif r, ok2 := ps.receivers[key]; ok2 && r != nil {\n\t\t\tif err := r.sendAck(req); err != nil {\n", Expect: "O8.19"},
 		Variant{Name: "receiver's stream tested in a nested if", Property: "C08", File: "proxy/intra_proxy_router.go", Benign: true,
-			Old: "\t\tif r, ok2 := ps.receivers[key]; ok2 && r != nil && r.streamClient != nil {\n", New: "\t\tif r, ok2 := ps.receivers[key]; ok2 && r != nil {\n\t\t\tif r.streamClient == nil {\n\t\t\t\treturn fmt.Errorf(\"peer stream not open\")\n\t\t\t}\n"},
+			Old: "\t\tif r, ok2 := ps.receivers[key]; ok2 && r != nil && r.streamClient != nil {\n\t\t\tif err := r.sendAck(req); err != nil {\n", New: "\t\tif r, ok2 := ps.receivers[key]; ok2 && r != nil {\n\t\t\tif r.streamClient == nil {\n\t\t\t\treturn fmt.Errorf(\"peer stream not open\")\n\t\t\t}\n\t\t\tif err := r.sendAck(req); err != nil {\n"},
 		Variant{Name: "blobs of a single event are not walked", Property: "C13", File: "interceptor/reflection.go",
 			Old: "\tm, err := visitor(logger, events, match)\n\tmatched = matched || m\n", New: "\tif len(events) == 1 && !changed {\n\t\treturn blob, matched, changed, nil\n\t}\n\tm, err := visitor(logger, events, match)\n\tmatched = matched || m\n", Expect: "O13.14"},
 		Variant{Name: "repair decodes the first buffer of the payload only", Property: "C18", File: "proto/compat/codec.go",
